@@ -5,6 +5,7 @@ import (
 	"github.com/go-kid/ioc/container/factory"
 	"github.com/go-kid/ioc/util/vsync"
 
+	"verif/internal/core"
 	"verif/internal/envx"
 )
 
@@ -38,6 +39,7 @@ type StartSpec struct {
 
 // Start runs one real app.NewApp().Run under the harness-owned environment.
 func Start(sp StartSpec) *StartObs {
+	core.Tick()
 	rt := &RT{Ch: sp.Ch, Faults: sp.Faults, Mode: sp.Mode, Base: sp.Base}
 	if sp.User != nil {
 		rt.User = userPred(sp.User)
